@@ -34,6 +34,18 @@ def obsString (l : Line) : String :=
 def returnedClaims (l : Line) : Claims :=
   { iss := str l "o.iss", sub := str l "o.sub", aud := list l "o.aud", exp := int l "o.exp", iat := int l "o.iat" }
 
+/-- an `endpoint` line: the request as addressed, and what the endpoint was observed to do -/
+def epReq (l : Line) : C14.EndpointReq :=
+  let iss := str l "c.iss"
+  let method := ((List.range (nat l "cl.n")).find? fun i => str l s!"cl.{i}.id" == iss).map fun i => str l s!"cl.{i}.auth"
+  { reqIssuer := str l "req.iss", assertion := parseToken l, bearerGrant := str l "ep" == "bearer",
+    requestedScopes := list l "scope.req", refusedScopes := list l "scope.forbidden", helperMade := str l "mint" == "helper" && bool l "proper",
+    clientAuth := str l "ep" != "bearer", registeredMethod := method,
+    contextOK := bool l "ctx.ok" }
+
+def epObs (l : Line) : C14.EndpointObs :=
+  { accepted := str l "obs" == "ok", identity := opt l "o.id", scopes := if has l "o.scope" then some (list l "o.scope") else none }
+
 def monitorLine (l : Line) : Option String :=
   if str l "obs" == "panic" then some "panic" else
   let registry := Drv.C02.parseRegistry l
@@ -47,11 +59,23 @@ def monitorLine (l : Line) : Option String :=
     | some a, some _ => some a
     | _, _ => none
   | "helper" => C14.helperOK (str l "obs" == "ok")
+  | "endpoint" =>
+    let registry := Drv.C02.parseRegistry l
+    let rq := epReq l
+    let obs := epObs l
+    -- a time-dependent clause counts only when it fails at both ends of the call
+    match C14.endpointSound registry rq (int l "now0") obs, C14.endpointSound registry rq (int l "now1") obs with
+    | some a, some _ => some a
+    | _, _ => (C14.endpointHelper registry rq obs).orElse fun _ => C14.endpointProper registry rq (int l "now0") (int l "now1") obs
   | "reqobj" =>
     C14.requestObjectOK (str l "v.iss") registry (plainReq l) (if str l "obs" == "ok" then some (afterReq l) else none)
   | _ => some "bad-kind"
 
+def lineClass (l : Line) : String :=
+  if str l "kind" == "endpoint" then s!"endpoint:{str l "router"}:{str l "ep"}:{str l "mint"}:aud-{str l "aud"}:{str l "order"}:{str l "obs"}"
+  else s!"{str l "kind"}:{obsString l}"
+
 def stepMon (l : Line) : String :=
-  s!"case={str l "case"} class={str l "kind"}:{obsString l} model=- observed={obsString l} monitor={showMon (monitorLine l)} agree=1"
+  s!"case={str l "case"} class={lineClass l} model=- observed={obsString l} monitor={showMon (monitorLine l)} agree=1"
 
 end Drv.C14
